@@ -3,7 +3,9 @@ import Enc.Model.Proto
 Model of /repo/proto/rewrite.go: `Parse`, `Append`, `MessageRewriter.Rewrite` (seen-set, first occurrence rewritten,
 later occurrences of a templated number dropped, others copied through `Append`, absent templated fields appended in
 index order), `multiRewriter`, `RawMessage.Rewrite`, `embddedRewriter` (rewrite, then splice tag+length in front), and
-`makeFieldset`.
+`makeFieldset`; and the two constructs that only `ParseRewriteTemplate` builds: `embddedRewriter{merge: true}` (commit
+c0f6ba5: the rewriter of a singular message field is given the concatenation of ALL occurrences of the field,
+`mergeOccurrences`) and `replacement` (commit d55a964: the rewriters of a templated list or map ignore the old value).
 -/
 namespace Enc.Model.Proto
 open Enc
@@ -38,6 +40,27 @@ inductive Rw where
   | multi (rs : List Rw)
   | message (len : Nat) (rs : List (Nat × Rw))     -- MessageRewriter of length `len`: non-nil entries, ascending index
   | embedded (number : Nat) (len : Nat) (rs : List (Nat × Rw))
+  | embeddedMerge (number : Nat) (len : Nat) (rs : List (Nat × Rw))   -- embddedRewriter{merge: true} (templates: singular message field)
+  | replacement (r : Rw)                                              -- replacement{r}: rewrites from a nil input
+
+-- go: proto.mergeOccurrences — `v` followed by the values of the later occurrences of the varlen field `f` in `m`; stops
+-- silently at the first record that does not parse (`break // reported when the caller gets there`).
+-- Fuel = number of records at most = `m.length` (every record has at least one byte).
+def mergeOccurrences : Nat → Nat → Bytes → Bytes → Bytes
+  | 0, _, v, _ => v
+  | fuel + 1, f, v, m =>
+    if m.isEmpty then v
+    else
+      match parseField m with
+      | .ok (f2, t2, v2, rest) => mergeOccurrences fuel f (if f2 == f && t2 == 2 then v ++ v2 else v) rest
+      | _ => v
+
+/-- `if e, ok := r[i].(*embddedRewriter); ok && e.merge && t == Varlen { v = mergeOccurrences(f, v, m) }`: only a rewriter that
+sits in the table slot itself (not wrapped in a multiRewriter or a replacement) is looked at -/
+def mergeInput (r : Rw) (f t : Nat) (v m : Bytes) : Bytes :=
+  match r with
+  | .embeddedMerge .. => if t == 2 then mergeOccurrences m.length f v m else v
+  | _ => v
 
 def getRw (rs : List (Nat × Rw)) (i : Nat) : Option Rw := (rs.find? (·.1 == i)).map (·.2)
 
@@ -54,6 +77,11 @@ def rewrite : Nat → Rw → Bytes → Res Bytes
     (rewrite fuel (.message len rs) inp).bind fun body =>
       if body.isEmpty then .ok []
       else .ok (encodeVarint (BitVec.ofNat 64 (number * 8 + 2)) ++ encodeVarint (BitVec.ofNat 64 body.length) ++ body)
+  | fuel + 1, .embeddedMerge number len rs, inp =>       -- the same method; `merge` is read by the enclosing MessageRewriter
+    (rewrite fuel (.message len rs) inp).bind fun body =>
+      if body.isEmpty then .ok []
+      else .ok (encodeVarint (BitVec.ofNat 64 (number * 8 + 2)) ++ encodeVarint (BitVec.ofNat 64 body.length) ++ body)
+  | fuel + 1, .replacement r, _ => rewrite fuel r []
 def rewriteMulti : Nat → List Rw → Bytes → Res Bytes
   | 0, _, _ => .err "fuel"
   | _, [], _ => .ok []
@@ -68,7 +96,8 @@ def rewriteLoop : Nat → Nat → List (Nat × Rw) → Bytes → List Nat → Re
         match (if f < len then getRw rs f else none) with
         | some r =>
           if seen.contains f then rewriteLoop fuel len rs m seen
-          else (rewrite fuel r v).bind fun a => (rewriteLoop fuel len rs m (f :: seen)).bind fun (b, s) => .ok (a ++ b, s)
+          else (rewrite fuel r (mergeInput r f t v m)).bind fun a =>
+            (rewriteLoop fuel len rs m (f :: seen)).bind fun (b, s) => .ok (a ++ b, s)
         | none => (rewriteLoop fuel len rs m seen).bind fun (b, s) => .ok (appendField f t v ++ b, s)
 /-- templated fields that did not occur: rewritten with a nil input, in index order (`for i, f := range r`) -/
 def rewriteAbsent : Nat → List (Nat × Rw) → List Nat → Res Bytes
